@@ -100,7 +100,30 @@ Definition mon_data (ins : list N) : bool :=
   | _ => false
   end.
 
+(* kind 155: [event_idx; new; old; ev; uflags; observed; size] *)
+Definition mon_notify (ins : list N) : bool :=
+  match ins with
+  | [eidx; new; old; ev; uflags; obs; size] =>
+      if eidx =? 1 then (if need_event ev new old then obs =? 1 else true)
+      else obs =? b2n (N.land uflags 1 =? 0)
+  | _ => false
+  end.
+
+(* kind 156: [event_idx; ev; uflags; old; new; notified; gave_up; class; policy; spins] *)
+Definition mon_cosim (ins : list N) : bool :=
+  match ins with
+  | [eidx; ev; uflags; old; new; notified; gave_up; class; pol; spins] =>
+      let required := if eidx =? 1 then need_event ev new old else (N.land uflags 1 =? 0) in
+      (gave_up =? 0) && (class =? 0)
+      && (if required then 1 <=? notified else true)
+      && (if (eidx =? 0) && negb required then notified =? 0 else true)
+  | _ => false
+  end.
+
 Definition queue_monitor (k : N) (ins : list N) : list N :=
+  if k =? 155 then [b2n (mon_notify ins)] else
+  if k =? 156 then [b2n (mon_cosim ins)] else
+  if k =? 157 then match ins with [ue; lu] => [b2n (ue =? lu)] | _ => [77777] end else
   if k =? 150 then [b2n (mon_publish ins)] else
   if k =? 152 then [b2n (mon_data ins)] else
   if k =? 153 then match ins with [en; fl] => [b2n (fl =? (if en =? 1 then 0 else 1))] | _ => [77777] end else
